@@ -81,6 +81,10 @@ SCEN = {
                         s_ciphers=["aes256gcm"], steps=[]),
     "fail-clientcert": dict(v="tls12", reqCert=True, steps=[]),
     "range": dict(steps=[("w", "c", 2000), ("r", "s", 2000)]),
+    # the client's first send fails (EPIPE) while the peer's fatal alert is
+    # waiting to be read: the alert explains the failure, however it arrives
+    "fail-send-alert-pending": dict(v="tls12", steps=[], gen_only=True,
+                                    send_fault="c"),
 }
 SCEN_NAMES = sorted(SCEN)
 
@@ -161,6 +165,20 @@ def play_gen(name, scripts=None, order=None, mitm=None, prepare=None,
     if tweak is not None:
         tweak(client, server)
     DET.reseed("C14", name)
+    if f.get("send_fault"):
+        from vlib.wire import Link
+        link = link or Link(mitm=mitm)
+        victim = f["send_fault"]
+        inner = prepare
+
+        def prepare(cc, scn):
+            raw = (cc if victim == "c" else scn).sock
+            while hasattr(raw, "socket"):
+                raw = raw.socket
+            raw.tx_fault = (0, "pipe")
+            link.inject(victim, b"\x15\x03\x03\x00\x02\x02\x28")
+            if inner is not None:
+                inner(cc, scn)
     p = sc.connect(client, server, scripts=scripts, order=order, mitm=mitm,
                    max_steps=400000, prepare=prepare, link=link)
     res = {"c": summarize(p.c, p.co), "s": summarize(p.s, p.so),
@@ -560,6 +578,8 @@ def norm_steps(steps):
 def check(case):
     name, path = case["sc"], case["path"]
     labels = ["sc=" + name, "path=" + path]
+    if SCEN[name].get("gen_only") and path != "gen":
+        return good(nt=False, labels=labels + ["path-not-applicable"])
     base = baseline(name)
     scripts = None
     nt = False
